@@ -20,6 +20,13 @@ package message
 //@   rely (old(m.ack) != nil ==> m.ack == old(m.ack)) && (old(m.noAck) != nil ==> m.noAck == old(m.noAck)) [channels-once-set-are-never-replaced]
 //@   rely old(m.ackSentType) != noAckSent ==> m.ackSentType == old(m.ackSentType) && m.ack == old(m.ack) && m.noAck == old(m.noAck) [settled-stays]
 
+// ---- lock order of the package (C06: Close must not hang on a lock) ----
+// Close takes closedLock, then handlersLock, and keeps both while it waits (with a time limit) for the handlers; so
+// nobody may ask for closedLock while holding handlersLock, and so on down the list. The last two names are one lock
+// (the router's, copied into every handler).
+
+//@ lockorder Router.closedLock < Router.handlersLock < Router.middlewaresLock < Router.runningHandlersWgLock = handler.runningHandlersWgLock < Message.ackMutex
+
 //@ func init
 //@   nopanic
 //@   ensures closedchan != nil && closed(closedchan) [closedchan-closed]
@@ -36,6 +43,7 @@ package message
 //@   modifies nothing
 
 //@ func (*Message).Ack
+//@   ghost waits Message.ackMutex
 //@   requires m != nil
 //@   ghost atomic
 //@   nopanic
@@ -46,6 +54,7 @@ package message
 //@   ensures old(m.ackSentType) != noAckSent ==> m.ack == old(m.ack) && m.noAck == old(m.noAck) && m.ackSentType == old(m.ackSentType) [repeat-changes-nothing]
 
 //@ func (*Message).Nack
+//@   ghost waits Message.ackMutex
 //@   requires m != nil
 //@   ghost atomic
 //@   nopanic
@@ -140,6 +149,7 @@ package message
 //@ spec publishFailed(k0 int, k1 int) bool := k1 == k0 + 1 && (panicked(P, k0) || ret(P, 0, k0) != nil)
 
 //@ func (*handler).handleMessage
+//@   ghost waits Message.ackMutex
 //@   requires h != nil && msg != nil && handler != nil
 //@   ghost consumes-wg h.runningHandlersWg as msg
 //@   gives @wgdone:h.runningHandlersWg: msg.ackSentType != noAckSent [an-invocation-reports-back-only-after-its-message-was-settled]
@@ -238,6 +248,7 @@ package message
 //@   ensures result1 != nil ==> result0 == nil
 
 //@ func (*Router).AddHandler
+//@   ghost waits Router.handlersLock
 //@   ghost label ADDH
 //@   ghost atomic
 //@   requires r != nil && r.handlersLock != nil && r.handlersWg != nil
@@ -260,6 +271,7 @@ package message
 //@   panics-ensures panicked(NPH, old(calls(NPH)))
 
 //@ func (*Router).AddNoPublisherHandler
+//@   ghost waits Router.handlersLock
 //@   ghost label ADDNPH
 //@   requires r != nil && r.handlersLock != nil && r.handlersWg != nil
 //@   ensures result != nil && result.router == r && result.handler != nil && has(r.handlers, handlerName) && r.handlers[handlerName] == result.handler [registered-under-its-name]
@@ -288,6 +300,7 @@ package message
 //@   modifies r.middlewares
 
 //@ func (*Router).addHandlerLevelMiddleware
+//@   ghost waits Router.middlewaresLock
 //@   requires r != nil && r.middlewaresLock != nil
 //@   nopanic
 //@   ensures len(r.middlewares) == old(len(r.middlewares)) + len(m) [appended-in-call-order]
@@ -304,6 +317,7 @@ package message
 //@ spec wrap(ms []middleware, i int, name string, f HandlerFunc) HandlerFunc := i >= len(ms) ? f : (applies(ms[i], name) ? app(ms[i].Handler, wrap(ms, i + 1, name, f)) : wrap(ms, i + 1, name, f)) decreases len(ms) - i
 
 //@ func (*handler).run
+//@   ghost waits handler.runningHandlersWgLock
 //@   requires h != nil && h.runningHandlersWg != nil && h.runningHandlersWgLock != nil && h.messagesCh != nil && h.handlerFunc != nil
 //@   requires ctx != nil && h.subscriber != nil && h.stopFn != nil && h.routersCloseCh != nil [what-the-close-watcher-needs]
 //@   requires forall i int :: 0 <= i && i < len(middlewares) ==> middlewares[i].Handler != nil
@@ -362,6 +376,7 @@ package message
 //@   modifies r.middlewares
 
 //@ func (*Handler).AddMiddleware
+//@   ghost waits Router.middlewaresLock
 //@   requires h != nil && h.handler != nil && h.router != nil && h.router.middlewaresLock != nil
 //@   nopanic
 //@   ensures len(h.router.middlewares) == old(len(h.router.middlewares)) + len(m) [appended-in-call-order]
@@ -433,9 +448,11 @@ package message
 // ---- lifecycle (C10, C06) ----
 
 //@ func (*Router).RunHandlers$1
+//@   ghost waits Router.handlersLock
 //@   requires r != nil && h != nil
 
 //@ func (*Router).RunHandlers
+//@   ghost waits Router.handlersLock
 //@   ghost label RH
 //@   requires r != nil && r.handlersLock != nil && r.middlewaresLock != nil && r.handlersWg != nil && ctx != nil
 //@   requires forall i int :: 0 <= i && i < len(r.publisherDecorators) ==> r.publisherDecorators[i] != nil
@@ -480,6 +497,7 @@ package message
 //@   ensures calls(SF) == old(calls(SF)) + 1 [cancels-this-handlers-own-subscription-context-once]
 
 //@ func (*Router).IsClosed
+//@   ghost waits Router.closedLock
 //@   requires r != nil
 //@   ghost atomic
 //@   nopanic
@@ -487,6 +505,7 @@ package message
 //@   ensures result ==> closed(r.closingInProgressCh) && closed(r.closedCh) [a-closed-router-has-both-close-channels-closed]
 
 //@ func (*Router).watchAllHandlersStopped$1
+//@   ghost waits Router.closedLock
 //@   requires r != nil && routerBuilt(r) && ctx != nil
 //@   nopanic
 //@   ensures closed(r.closedCh) || closed(r.closingInProgressCh) [the-watcher-ends-only-when-the-router-is-closed-or-closing]
@@ -494,11 +513,13 @@ package message
 //@   assert @call:(*Router).Close: ncalls("(*Router).IsClosed") == old(ncalls("(*Router).IsClosed")) + 1 [it-closes-the-router-only-after-every-receive-loop-ended-and-the-router-was-seen-open]
 
 //@ func (*Router).watchAllHandlersStopped
+//@   ghost waits Router.handlersLock
 //@   requires r != nil && routerBuilt(r) && ctx != nil
 //@   nopanic
 //@   ensures spawned("(*Router).watchAllHandlersStopped$1") == old(spawned("(*Router).watchAllHandlersStopped$1")) + 1 [one-watcher-started]
 
 //@ func (*Router).Run
+//@   ghost waits Router.handlersLock
 //@   requires r != nil && ctx != nil && routerBuilt(r)
 //@   requires !r.isRunning ==> !closed(r.running) [running-is-closed-only-by-Run]
 //@   ghost owns r.running
@@ -515,6 +536,7 @@ package message
 // ---- graceful close (C06) ----
 
 //@ func (*Router).Close
+//@   ghost waits Router.closedLock
 //@   ghost label RCLOSE
 //@   ghost atomic
 //@   ghost set closeCompleted(r) = !timedout @close:r.closedCh
@@ -536,6 +558,7 @@ package message
 //@   modifies nothing
 
 //@ func (*Router).waitForHandlers$1
+//@   ghost waits Router.runningHandlersWgLock
 //@   ghost consumes-wg waitGroup
 //@   ghost borrows r.handlersLock
 //@   ghost joins-all r.runningHandlersWg: (*handler).handleMessage
